@@ -22,20 +22,20 @@ import rules_struct
 
 PROPS = {
     "C02": {
-        "rules": [rules_own.make("C02"), rules_struct.difatcap("C02"), rules_struct.stalechain("C02"), rules_mode.strictlist("C02"), rules_struct.selflink("C02"), rules_wt.run, rules_follow.make("R-HDR", "C02"), rules_follow.make("R-INIT", "C02"), rules_struct.freshid, rules_struct.hdrcount("C02"), rules_struct.hdrv3("C02"), rules_struct.parenttype("C02"), rules_entry.gstore, rules_struct.namelen("C02"), rules_layout.run("C02"), rules_entry.ctorvalues("C02"), rules_wt.reverse("C02"), rules_struct.fmtconst("C02"), rules_follow.make("R-MARK", "C02"), rules_follow.make("R-CTOR", "C02"), rules_struct.wholetable("C02"), rules_struct.difatlink("C02")],
+        "rules": [rules_own.make("C02"), rules_struct.difatcap("C02"), rules_struct.stalechain("C02"), rules_mode.strictlist("C02"), rules_struct.selflink("C02"), rules_wt.run, rules_follow.make("R-HDR", "C02"), rules_follow.make("R-INIT", "C02"), rules_struct.freshid, rules_struct.hdrcount("C02"), rules_struct.hdrv3("C02"), rules_struct.parenttype("C02"), rules_entry.gstore, rules_struct.namelen("C02"), rules_layout.run("C02"), rules_entry.ctorvalues("C02"), rules_wt.reverse("C02"), rules_struct.fmtconst("C02"), rules_follow.make("R-MARK", "C02"), rules_follow.make("R-CTOR", "C02"), rules_struct.wholetable("C02"), rules_struct.difatlink("C02"), rules_lock.statecells("C02"), rules_own.stateset("C02"), rules_det.idwidth("C02")],
         "explanation": "R-WT: every store site to an in-memory mirror of on-disk state (cached FAT/DIFAT/DIFAT-sector list, MiniFAT and its start sector, directory entry table, sector count; enumerated automatically from MIR: &mut borrows of mirror fields, stores through dir_entry_mut, direct field stores) is paired in the same function with a file write of the same datum "
                        "(same value by provenance, or write_dir_entry/write_to/seek_within_dir_entry+write_le_u32 of the same entry id at the field's offset), either dominating the store or on every Ok path after it; six listed exceptions with reasons. "
                        "R-HDR: header counters (words 40/44/60/64/68/72) are rewritten in the same function that changes the chain they count, on every Ok path. R-INIT: every sector handed out by allocate_sector - reused from the free list or appended - is reset with the caller's initialiser before it is returned (a directory sector recycled without SectorInit::Dir would reopen as garbage entries).",
         "not_decided": "that the bytes reopen to the same state; that the right value is written; crash points inside an operation",
     },
     "C03": {
-        "rules": [rules_struct.linkend("C03"), rules_struct.difatcap("C03"), rules_follow.make("R-MARK"), rules_follow.make("R-HDR", "C03"), rules_follow.make("R-BLANK"), rules_follow.make("R-INIT", "C03"), rules_own.make("C03"), rules_entry.gstore, rules_layout.run("C03"), rules_struct.cutoff, rules_struct.unit, rules_struct.freshid, rules_follow.make("R-FREEOLD", "C03"), rules_struct.hdrcount("C03"), rules_struct.hdrv3("C03"), rules_struct.parenttype("C03"), rules_struct.initkind("C03"), rules_struct.linkkeep("C03"), rules_struct.unlink("C03"), rules_struct.blankown("C03"), rules_struct.killread("C03"), rules_struct.ceil("C03"), rules_entry.slotreset("C03"), rules_guard.make("R-BEGINGUARD"), rules_follow.make("R-FREEREBUILD", "C03"), rules_struct.detach("C03"), rules_struct.namelen("C03"), rules_struct.freebeforeremove("C03"), rules_units.units("C03"), rules_struct.handon("C03"), rules_struct.slotid("C03"), rules_struct.keepcount("C03"), rules_follow.make("R-FREEALL", "C03"), rules_follow.make("R-CUTTAIL", "C03"), rules_struct.stalechain("C03"), rules_struct.allblack("C03"), rules_struct.selflink("C03"), rules_entry.ctorvalues("C03"), rules_struct.fmtconst("C03"), rules_struct.fold("C03"), rules_struct.wholetable("C03"), rules_struct.handlekind("C03"), rules_wt.reverse("C03"), rules_struct.growcount("C03"), rules_struct.difatlink("C03"), rules_struct.kindguard("C03")],
+        "rules": [rules_struct.linkend("C03"), rules_struct.difatcap("C03"), rules_follow.make("R-MARK"), rules_follow.make("R-HDR", "C03"), rules_follow.make("R-BLANK"), rules_follow.make("R-INIT", "C03"), rules_own.make("C03"), rules_entry.gstore, rules_layout.run("C03"), rules_struct.cutoff, rules_struct.unit, rules_struct.freshid, rules_follow.make("R-FREEOLD", "C03"), rules_struct.hdrcount("C03"), rules_struct.hdrv3("C03"), rules_struct.parenttype("C03"), rules_struct.initkind("C03"), rules_struct.linkkeep("C03"), rules_struct.unlink("C03"), rules_struct.blankown("C03"), rules_struct.killread("C03"), rules_struct.ceil("C03"), rules_entry.slotreset("C03"), rules_guard.make("R-BEGINGUARD"), rules_follow.make("R-FREEREBUILD", "C03"), rules_struct.detach("C03"), rules_struct.namelen("C03"), rules_struct.freebeforeremove("C03"), rules_units.units("C03"), rules_struct.handon("C03"), rules_struct.slotid("C03"), rules_struct.keepcount("C03"), rules_follow.make("R-FREEALL", "C03"), rules_follow.make("R-CUTTAIL", "C03"), rules_struct.stalechain("C03"), rules_struct.allblack("C03"), rules_struct.selflink("C03"), rules_entry.ctorvalues("C03"), rules_struct.fmtconst("C03"), rules_struct.fold("C03"), rules_struct.wholetable("C03"), rules_struct.handlekind("C03"), rules_wt.reverse("C03"), rules_struct.growcount("C03"), rules_struct.difatlink("C03"), rules_struct.kindguard("C03"), rules_own.stateset("C03")],
         "explanation": "Format-maintenance obligations visible as code shape: R-MARK (FAT/DIFAT sectors marked as such; allocated cell END_OF_CHAIN before use; freed cells FREE), R-HDR (header counts follow the chains), "
                        "R-BLANK (a removed entry's slot is overwritten with DirEntry::unallocated() on disk), R-GSTORE (no CLSID/timestamps on streams: every store to those fields is dominated by a test excluding ObjType::Stream; only storages are stamped at creation), R-OWN (allocation protocol: who may change FAT cells / free lists / initialise sectors), R-LAYOUT (symbolic walk of DirEntry::read_from/write_to and Header::read_from/write_to in control-flow order: same widths, counts and fields at the same offsets, totals 128 and 512, in-place patch offsets 68/72/76 and 40/44/60/64/68/72/76 equal the derived field offsets).",
         "not_decided": "single ownership of sectors, no orphans, chain length vs stream size, sibling-tree order and colouring: invariants over the contents of FAT and directory across histories",
     },
     "C07": {
-        "rules": [rules_entry.reloc, rules_entry.hstore, rules_own.make("C07"), rules_struct.cutoff, rules_entry.moveall, rules_struct.unlink("C07"), rules_struct.blankown("C07"), rules_struct.linkkeep("C07"), rules_follow.make("R-MARK", "C07"), rules_struct.freshid, rules_entry.fieldown("C07"), rules_follow.make("R-FREEREBUILD", "C07"), rules_struct.handon("C07"), rules_struct.slotid("C07"), rules_struct.parenttype("C07"), rules_wt.reverse("C07"), rules_struct.kindguard("C07")],
+        "rules": [rules_entry.reloc, rules_entry.hstore, rules_own.make("C07"), rules_struct.cutoff, rules_entry.moveall, rules_struct.unlink("C07"), rules_struct.blankown("C07"), rules_struct.linkkeep("C07"), rules_follow.make("R-MARK", "C07"), rules_struct.freshid, rules_entry.fieldown("C07"), rules_follow.make("R-FREEREBUILD", "C07"), rules_struct.handon("C07"), rules_struct.slotid("C07"), rules_struct.parenttype("C07"), rules_wt.reverse("C07"), rules_struct.kindguard("C07"), rules_own.stateset("C07")],
         "explanation": "A handle is bound to its stream only by a slot index, so: R-RELOC - every whole-entry store into the directory table takes a freshly constructed entry (DirEntry::new/unallocated/empty_root_entry/read_from by provenance), never a copy of another slot, and no Vec reordering is applied to the table; "
                        "R-HSTORE - all DirEntry field stores reachable (call graph) from Stream methods are confined to start_sector/stream_len, no structural directory operation is reachable from a handle, and with_dir_entry_mut is applied to the handle's own stream_id; R-OWN - FAT/MiniFAT cells, sector (re)initialisation and the free lists change only inside the allocator's protocol functions with the protocol's argument shapes (a sector taken outside the protocol could be handed to two chains, so that a write through one handle lands in another stream).",
         "not_decided": "that the bytes of other streams are untouched (sector ownership is value-level); validity of a handle after its own stream is removed",
@@ -51,14 +51,14 @@ PROPS = {
         "assumptions": ["audited sink entries (rules/sinks.json) record a human judgement made once by reading the code; the analysis re-checks only that their required guards still dominate the sink"],
     },
     "C06": {
-        "rules": [rules_io.dirtyrange("C06"), rules_struct.setlennoop("C06"), rules_io.flushfirst, rules_io.window, rules_io.posdim, rules_io.poskeep, rules_struct.cutoff, rules_zero.run, rules_struct.ceil("C06"), rules_api.errkind("C06"), rules_io.buffull("C06"), rules_io.writeat("C06"), rules_struct.initkind("C06"), rules_sink.sink("read"), rules_units.units("C06"), rules_struct.seekend("C06"), rules_struct.seekbound("C06"), rules_struct.kindguard("C06")],
+        "rules": [rules_io.dirtyrange("C06"), rules_struct.setlennoop("C06"), rules_io.flushfirst, rules_io.window, rules_io.posdim, rules_io.poskeep, rules_struct.cutoff, rules_zero.run, rules_struct.ceil("C06"), rules_api.errkind("C06"), rules_io.buffull("C06"), rules_io.writeat("C06"), rules_struct.initkind("C06"), rules_sink.sink("read"), rules_units.units("C06"), rules_struct.seekend("C06"), rules_struct.seekbound("C06"), rules_struct.kindguard("C06"), rules_own.stateset("C06"), rules_struct.setlenguard("C06"), rules_det.written("C06")],
         "explanation": "Cache-protocol clauses of the hand-written stream buffer, decided as path properties over the MIR of every Stream method: "
                        "R-FLUSHFIRST (every window move - store to buf_offset_from_start, StreamBuffer::clear, refill_with - is preceded on every path by the ok successor of flush_changes, with no mark_modified in between) and "
                        "R-WINDOW (after the window offset is stored, every path to any return, error exits included, passes clear or a successful refill), R-POSDIM (every value stored as window offset or stream length is a stream position - old offset + buffer-relative amount, current_position(), or a validated absolute target - never a bare buffer cursor), R-ERRKIND rows (the five out-of-range seeks are InvalidInput).",
         "not_decided": "equality with a byte vector for all call sequences and buffer sizes (values of pos/cap/offset/total_len across histories); set_len near u64::MAX",
     },
     "C08": {
-        "rules": [rules_struct.branchunit("C08"), rules_zero.run, rules_follow.make("R-INIT", "C08"), rules_io.poskeep, rules_det.short, rules_struct.ceil("C08"), rules_struct.initkind("C08"), rules_struct.keepcount("C08"), rules_units.units("C08"), rules_follow.make("R-CUTTAIL", "C08"), rules_zero.minifill("C08")],
+        "rules": [rules_struct.branchunit("C08"), rules_zero.run, rules_follow.make("R-INIT", "C08"), rules_io.poskeep, rules_det.short, rules_struct.ceil("C08"), rules_struct.initkind("C08"), rules_struct.keepcount("C08"), rules_units.units("C08"), rules_follow.make("R-CUTTAIL", "C08"), rules_zero.minifill("C08"), rules_det.written("C08")],
         "explanation": "R-ZERO: in the function that stores a stream's new length (resize_stream, reached from Stream::set_len), a zero-fill event (a backend write whose data provenance is io::repeat(0) / [0; N], directly or in a direct helper) exists, is controlled only by the comparison new length > old length, and lies on every path from the 'grows' edge of that comparison to the length store (error exits excepted). "
                        "Alternatively accepted: zeroing on shrink in both chain kinds plus zeroing of newly allocated mini sectors. R-INIT: regular sectors are reset with the requested initialiser (SectorInit::Zero for stream data) on both the reuse and the append path of allocate_sector.",
         "not_decided": "that the bytes are zero and that the zero-filled range is exactly [old, new): values",
@@ -98,27 +98,27 @@ PROPS = {
         "not_decided": "no panic/hang after a failed write on half-updated state (C11's question); that the flushed bytes are the accepted bytes (values)",
     },
     "C15": {
-        "rules": [rules_struct.cutoff, rules_struct.linkend("C15"), rules_guard.make("R-REUSE.consult"), rules_follow.make("R-REUSE"), rules_guard.make("R-CAP"), rules_follow.make("R-FREEOLD", "C15"), rules_own.make("C15"), rules_struct.killread("C15"), rules_mode.rawfield("C15"), rules_struct.linkkeep("C15"), rules_struct.ceil("C15"), rules_struct.dirlen("C15"), rules_guard.make("R-BEGINGUARD"), rules_follow.make("R-FREEREBUILD", "C15"), rules_struct.trimloop("C15"), rules_struct.freebeforeremove("C15"), rules_units.units("C15"), rules_follow.make("R-BLANK"), rules_struct.keepcount("C15"), rules_follow.make("R-FREEALL", "C15"), rules_follow.make("R-CUTTAIL", "C15"), rules_wt.reverse("C15"), rules_struct.growcount("C15"), rules_struct.kindguard("C15")],
+        "rules": [rules_struct.cutoff, rules_struct.linkend("C15"), rules_guard.make("R-REUSE.consult"), rules_follow.make("R-REUSE"), rules_guard.make("R-CAP"), rules_follow.make("R-FREEOLD", "C15"), rules_own.make("C15"), rules_struct.killread("C15"), rules_mode.rawfield("C15"), rules_struct.linkkeep("C15"), rules_struct.ceil("C15"), rules_struct.dirlen("C15"), rules_guard.make("R-BEGINGUARD"), rules_follow.make("R-FREEREBUILD", "C15"), rules_struct.trimloop("C15"), rules_struct.freebeforeremove("C15"), rules_units.units("C15"), rules_follow.make("R-BLANK"), rules_struct.keepcount("C15"), rules_follow.make("R-FREEALL", "C15"), rules_follow.make("R-CUTTAIL", "C15"), rules_wt.reverse("C15"), rules_struct.growcount("C15"), rules_struct.kindguard("C15"), rules_struct.setlenguard("C15")],
         "explanation": "R-REUSE: (a) every append path of allocate_sector / allocate_mini_sector / allocate_dir_entry is dominated by the 'nothing free' outcome of the free-list query (guard atoms); (b) every free feeds the list (free_sector => set_fat(FREE) + free_sectors.push on all Ok paths; likewise mini sectors; free_chain frees each visited sector); (c) validate rebuilds both lists from exactly the FREE cells. "
                        "R-CAP: the branch guarding each extension of the mini-stream chain and of the MiniFAT chain has the chain's physical length (Chain::len / num_sectors) in its condition, not only the logical length that shrinks on release. R-FREEOLD: wherever a stream that already has a chain is moved to a freshly started chain (mini<->regular migration), and before a removed stream's entry goes away, the old chain is freed first on every path.",
         "not_decided": "that file size is constant from the second repetition of any net-zero cycle (values of the free lists over histories); LIFO order; truncation of the file (the code has none)",
     },
     "C16": {
-        "rules": [rules_mode.run, rules_mode.strictlist("C16"), rules_struct.sibflag("C16"), rules_mode.rawfield("C16"), rules_mode.builder("C16"), rules_mode.normapplied("C16"), rules_struct.wholetable("C16"), rules_struct.repairfirst("C16"), rules_struct.hdrcountuse("C16"), rules_struct.storagefields("C16"), rules_mode.strictalways("C16")],
+        "rules": [rules_mode.run, rules_mode.strictlist("C16"), rules_struct.sibflag("C16"), rules_mode.rawfield("C16"), rules_mode.builder("C16"), rules_mode.normapplied("C16"), rules_struct.wholetable("C16"), rules_struct.repairfirst("C16"), rules_struct.hdrcountuse("C16"), rules_struct.storagefields("C16"), rules_mode.strictalways("C16"), rules_det.idwidth("C16")],
         "explanation": "R-MODE over all is_strict() tests (19 call sites): S - the region of the CFG dominated by the strict edge of each mode test contains no store, no mutating call and no Ok return, only refusals of kind InvalidData; "
                        "P/N - the region dominated by the permissive edge is either a listed normaliser that only pops/truncates its listed vector (DIFAT zero-stripping, FAT tail stripping, MiniFAT truncation) or a canonicalising assignment nested inside a documented deviation test; no refusal is made only in permissive mode. "
                        "Deviation inventory: each of the 18 documented deviations is located (regexes over guard atoms) as a refusal with is_strict() on its path (or, for the zero-padded FAT, an unconditional refusal pre-empted by the permissive normaliser).",
         "not_decided": "that the permissive view of a damaged file equals the undamaged file's content (values); deviations combined with foreign layouts",
     },
     "C17": {
-        "rules": [rules_det.tsident("C17"), rules_follow.make("R-SETTER", "C17"), rules_entry.gstore, rules_det.narrow, rules_layout.run("C17"), rules_entry.moveall, rules_entry.getter("C17"), rules_entry.closurestore("C17"), rules_api.errkind("C17"), rules_det.epochcentre("C17"), rules_entry.ctorvalues("C17"), rules_entry.setterpure("C17"), rules_entry.setterkind("C17"), rules_io.refusalkept("C17"), rules_det.saturate("C17")],
+        "rules": [rules_det.tsident("C17"), rules_follow.make("R-SETTER", "C17"), rules_entry.gstore, rules_det.narrow, rules_layout.run("C17"), rules_entry.moveall, rules_entry.getter("C17"), rules_entry.closurestore("C17"), rules_api.errkind("C17"), rules_det.epochcentre("C17"), rules_entry.ctorvalues("C17"), rules_entry.setterpure("C17"), rules_entry.setterkind("C17"), rules_io.refusalkept("C17"), rules_det.saturate("C17"), rules_entry.keeptimes("C17")],
         "explanation": "R-SETTER: every metadata setter reaches with_dir_entry_mut on its Ok path, which forwards the same id down to Directory::with_dir_entry_mut, which writes the same slot back (write_dir_entry(same id) -> seek(128*id) + dir_entries[id].write_to). "
                        "R-GSTORE: streams never receive a CLSID or timestamps (every store to those fields is dominated by a test excluding ObjType::Stream). "
                        "R-NARROW: the FILETIME<->SystemTime conversion is total and saturating (no narrowing integer cast unless interval evaluation shows it fits, no unchecked SystemTime/Duration arithmetic, no unwrap of a fallible time operation). R-LAYOUT: the directory-entry serialiser and parser agree field for field (clsid, state bits, both timestamps at the same offsets and widths). R-ERRKIND rows: CLSID on a stream is InvalidInput, setters on a missing path are NotFound.",
         "not_decided": "exact values returned; 100 ns rounding direction; saturation limits; clock bracketing of a new storage's times (values)",
     },
     "C18": {
-        "rules": [rules_det.noerrafter("C18"), rules_det.short, rules_det.seekfirst, rules_det.nondet, rules_io.poskeep, rules_det.kindkeep("C18"), rules_det.trunc("C18"), rules_follow.make("R-RETRY", "C18"), rules_io.writeat("C18"), rules_io.flushfirst, rules_sink.sink("read")],
+        "rules": [rules_det.noerrafter("C18"), rules_det.short, rules_det.seekfirst, rules_det.nondet, rules_io.poskeep, rules_det.kindkeep("C18"), rules_det.trunc("C18"), rules_follow.make("R-RETRY", "C18"), rules_io.writeat("C18"), rules_io.flushfirst, rules_sink.sink("read"), rules_det.written("C18")],
         "explanation": "R-SHORT: each of the short-count primitives (Read::read/Write::write call sites) returns its count to the caller and advances its position by exactly that count, so results cannot depend on how the backend splits transfers; everything else uses exact-transfer forms. "
                        "R-SEEKFIRST: raw backend I/O occurs only in Sector methods, the absolute-seek helpers and two listed sequential constructors; a Sector is only built after a successful seek(SeekFrom::Start). "
                        "R-NONDET: clock reads confined to Timestamp::now (from insert_dir_entry) and touch; no iteration over randomly seeded hash containers; no pointer-to-integer casts.",
@@ -340,6 +340,21 @@ _ADDED12 = {
     "C17": " R-SETTERKIND: inside the public metadata setters, their closures and the helpers only they call, every object-type test is against ObjType::Stream (storages and the root are never told apart). R-SATURATE: in the to-timestamp conversions a checked addition / multiplication falls back to u64::MAX and a checked subtraction to 0, nothing else. R-REFUSALKEPT (see C09): a setter on a missing path answers NotFound.",
 }
 for _pid, _txt in _ADDED12.items():
+    PROPS[_pid]["explanation"] = PROPS[_pid]["explanation"] + _txt
+
+_ADDED13 = {
+    "C02": " R-STATESET: no state type has more fields written after construction than the audited set (rules/stateset.json; by count per type): a cache is state no write-through rule ties to the file. R-STATECELL: no state type holds a cell with interior mutability or a second lock. R-IDWIDTH: in the allocators, the directory, the chain handles and the sector layer no cast narrows an id or index to fewer than 32 bits unless intervals show that it fits. R-NAMELEN's writer clause also requires the zero name length of an unallocated entry, and only of one (defect D24).",
+    "C03": " R-KINDGUARD: every open / free of a stream's chain as a mini chain lies behind `len < MINI_STREAM_CUTOFF` (the constant itself), every open / free as a regular chain behind `len >= MINI_STREAM_CUTOFF`, with the length of the entry the start sector came from, an entry known to be a stream. R-STATESET (see C02). R-NAMELEN's blank-entry clause (D24).",
+    "C06": " R-KINDGUARD (see C03). R-STATESET (see C02). R-SETLENGUARD: no set_len call of the stream layer lies behind a comparison of quotients or remainders of lengths. R-WRITTEN: every Ok(n) of the Write::write impls of Sector, Chain and MiniChain carries the count a write call of the layer below reported, or 0.",
+    "C07": " R-KINDGUARD (see C03; its is-a-stream clause keeps a handle that outlived its stream from writing through a storage's entry). R-STATESET (see C02).",
+    "C08": " R-MINIFILL: zeros copied into a mini chain by the stream layer run to the new length (mini sectors are handed out as they are). R-WRITTEN (see C06).",
+    "C09": " R-ONEORDER no longer tolerates an integer comparison of the lengths of the names being ordered (a byte length is not the UTF-16 length compare_names orders by).",
+    "C15": " R-KINDGUARD (see C03). R-SETLENGUARD (see C06): a surplus sector kept by a skipped set_len is never released.",
+    "C16": " R-IDWIDTH (see C02).",
+    "C17": " R-KEEPTIMES: on the paths of DirEntry::read_from that a Storage or Root entry takes no constant replaces the CLSID or the times read from the file.",
+    "C18": " R-WRITTEN (see C06).",
+}
+for _pid, _txt in _ADDED13.items():
     PROPS[_pid]["explanation"] = PROPS[_pid]["explanation"] + _txt
 
 
